@@ -49,7 +49,7 @@ ASSUMPTIONS = [
 LEVEL_TEXT = ("generated-input search over the ClientHello grammar, its fragmentations and arbitrary/mutated bytes; every "
               "result is compared with an independent parser; not exhaustive")
 LEVEL_NOTE = "trusts lib/ref_clienthello.py and the sans-io driver"
-QUICK_N, THOROUGH_N = 160_000, 6_000_000
+QUICK_N, THOROUGH_N = 40_000, 4_000_000
 BUDGET_S = (150, 3600)
 
 # ------------------------------------------------------------------------------------------------ strategies
@@ -358,6 +358,21 @@ def _check_built(case, ctx):
             r1 = _parse(one, False, ctx, tag)
             if r1 != whole:
                 ctx.fail("fragmentation-changes-result:" + tag, "single record %r vs %d records %r" % (r1[0], len(ends), whole[0]))
+    # --- derived fragmentations (no generation cost): cuts inside the handshake header, at the very end, one byte each
+    if not dtls and len(full) <= 2000:
+        msg = R.handshake_message(R.build_body(case["spec"]), False)
+        n = len(msg)
+        for cuts in ([1], [2], [3], [4], [5], [n - 1], [1, 2, 3, 4], [n - 2, n - 1], [4, n // 2]):
+            alt, aends = R.tls_records(msg, cuts, tuple(case["recv"]))
+            r = _parse(alt + bytes(case["trailing"]), False, ctx, tag)
+            if r != whole:
+                ctx.fail("fragmentation-changes-result:" + tag, "cuts %r gave %r instead of %r" % (cuts, r[0], whole[0]))
+                break
+            r = _parse(alt[:aends[-1] - 1], False, ctx, tag)
+            if r[0] != "none":
+                ctx.fail("prefix-not-incomplete:%s:%s" % (tag, r[0]), "cuts %r, last byte missing, gave %s" % (cuts, r[0]))
+                break
+        ctx.cls("derived-fragmentations", 9)
     # --- prefixes
     if not dtls:
         if case["allprefix"] and len(full) <= 400:
@@ -458,6 +473,7 @@ def _check_openssl(case, ctx):
     if (refp["alpn"] or []) != [bytes(x) for x in case["alpn"]]:
         raise HarnessError("reference ALPN %r != OpenSSL argument %r" % (refp["alpn"], case["alpn"]))
     tag = "openssl-dtls" if dtls else "openssl-tls"
+    rtag = "dtls10-record" if dtls and wire[1:3] == b"\xfe\xff" else tag
     if dtls:
         full = wire
         ends = [len(wire)]
@@ -470,7 +486,7 @@ def _check_openssl(case, ctx):
     if res[0] == "crash":
         return
     if res[0] != "hello":
-        ctx.fail("valid-rejected:" + tag if res[0] == "invalid" else "complete-but-none:" + tag,
+        ctx.fail("valid-rejected:" + rtag if res[0] == "invalid" else "complete-but-none:" + tag,
                  "OpenSSL ClientHello gave %s (record version %s)" % (res[0], wire[1:3].hex()))
         return
     _compare(res[1], refp, ctx, tag)
